@@ -20,7 +20,9 @@
 //	              info: WriteHeader(1xx) calls before the final status; early:1 = Flush after the headers/WriteHeader,
 //	              before the first body byte (flush=1 then also needs the response HEADERS at the client while the handler runs)
 //	              body chunk i byte j = (37i+11j+7) mod 251; flush:k = Flush after chunk k (0 = never)
-//	req [body=<len>] [abort=1]
+//	req [body=<len>] [abort=1] [src=<name>]
+//	    src: the source the connection/rate limiters see (their extractor reads the header X-Src; default "src", which is also the
+//	    source of the priming / parked requests): limits are per source, other sources start fresh
 //	    abort=1: the handler does its (non-hijacking) writes/flush and then leaves by panic(http.ErrAbortHandler); the client
 //	    sees a broken or short response -> aborted invoked=<n>   (if a layer intervened the handler never ran: normal line)
 //	    all req ops of a scenario go to the SAME stack instance, one after the other
@@ -105,6 +107,7 @@ type scen struct {
 	srv         *httptest.Server
 	client      *http.Client
 	sc          script
+	cur         string // source of the current op ("" = default source "src")
 	states      sync.Map
 	seq         int
 	holdEntered chan struct{}
@@ -350,7 +353,13 @@ func (l *fmtLogger) Info(msg string, args ...any)  { l.log(msg, args...) }
 func (l *fmtLogger) Warn(msg string, args ...any)  { l.log(msg, args...) }
 func (l *fmtLogger) Error(msg string, args ...any) { l.log(msg, args...) }
 
-var source = utils.ExtractorFunc(func(*http.Request) (string, int64, error) { return "src", 1, nil })
+// the source of a request (connlimit / ratelimit key): header X-Src, default "src" (priming and parked requests are "src")
+var source = utils.ExtractorFunc(func(r *http.Request) (string, int64, error) {
+	if v := r.Header.Get("X-Src"); v != "" {
+		return v, 1, nil
+	}
+	return "src", 1, nil
+})
 
 func build(specs []layerSpec, intervene int, inner http.Handler) (http.Handler, error) {
 	next := inner
@@ -503,6 +512,9 @@ func (s *scen) do(body int, hdr map[string]string) (*http.Response, *reqState, e
 	if err != nil {
 		return nil, st, err
 	}
+	if s.cur != "" {
+		req.Header.Set("X-Src", s.cur)
+	}
 	req.Header.Set("X-Req-Id", id)
 	for k, v := range hdr {
 		req.Header.Set(k, v)
@@ -568,6 +580,7 @@ func (s *scen) Op(f []string) string {
 		return "bad-op"
 	}
 	body := hx.KVInt(f, "body", 0)
+	s.cur, _ = hx.KV(f, "src")
 	if v, _ := hx.KV(f, "abort"); v == "1" {
 		return s.abortExchange(body)
 	}
